@@ -1160,7 +1160,9 @@ func (c *Conn) verifyServerCertificate(certificates [][]byte) error {
 			}
 
 			if len(c.config.InsecureServerNameToVerify) == 0 {
-				opts.DNSName = c.config.ServerName
+				// ECH was rejected: c.serverName is the ECH public name sent in
+				// the outer ClientHello, not the (secret) config.ServerName.
+				opts.DNSName = c.serverName
 			} else if c.config.InsecureServerNameToVerify != "*" {
 				opts.DNSName = c.config.InsecureServerNameToVerify
 			}
